@@ -76,7 +76,9 @@ Record case := MkCase {
   c_api : nat;                 (* 0: psd_safe_cholesky(A, upper, jitter, max_tries) ; 1: DenseLinearOperator(A).cholesky(upper) *)
   c_dt : dtype;                (* dtype of A *)
   c_d32 : bool;                (* torch.get_default_dtype() == float32 *)
-  c_st : settings float;       (* settings in force during the call *)
+  c_st : settings float;       (* settings state outside every context (the library defaults) *)
+  c_ctx : list (context float); (* the settings contexts the harness opened around the call, outermost first, with the
+                                  values it ASKED for (not read back from the library) *)
   c_n : nat;
   c_A : list fmat;             (* members, row-major over the batch shape *)
   c_upper : bool;
@@ -95,10 +97,13 @@ Record case := MkCase {
   o_unchanged : bool           (* A bitwise identical and A._version unchanged after the call *)
 }.
 
+(* settings in force during the call according to the model of the contexts (Model.enter_all) *)
+Definition eff_st (c : case) : settings float := enter_all (c_st c) (c_ctx c).
+
 Definition run_model (c : case) : result float * list (list fmat) :=
   match c_api c with
-  | O => psd_safe_cholesky ArFloat chol_float (c_st c) (c_d32 c) (c_dt c) (c_n c) [c_A c] O (c_upper c) (c_jit c) (c_mt c)
-  | _ => op_cholesky ArFloat chol_float (c_st c) (c_d32 c) (c_dt c) (c_n c) (c_A c) (c_upper c)
+  | O => psd_safe_cholesky ArFloat chol_float (eff_st c) (c_d32 c) (c_dt c) (c_n c) [c_A c] O (c_upper c) (c_jit c) (c_mt c)
+  | _ => op_cholesky ArFloat chol_float (eff_st c) (c_d32 c) (c_dt c) (c_n c) (c_A c) (c_upper c)
   end.
 
 (* increments the model added to each member's diagonal: diag(Aprime) - diag(A) (zero when no clone was made) *)
@@ -111,7 +116,7 @@ Definition model_inc (c : case) (h : list (list fmat)) : list (list float) :=
 (* members compared in trace mode: only those whose first factorisation succeeded (the others hold
    whatever LAPACK left behind) *)
 Definition trace_sel (c : case) : list bool :=
-  if trace_on (c_st c) && Nat.eqb (c_api c) O
+  if trace_on (eff_st c) && Nat.eqb (c_api c) O
   then map (fun M => Nat.eqb (snd (chol_float M)) O) (c_A c)
   else map (fun _ => true) (c_A c).
 
